@@ -43,3 +43,6 @@ table('r2-C*', hist.get('round2_first_run_missed', {}), set(hist.get('round2_fir
 if glob.glob(os.path.join(V, 'seeded', 'r3-C*')):
     table('r3-C*', hist.get('round3_first_run_missed', {}), set(hist.get('round3_first_run_detected_without_input', [])),
           'Round 3 (one more seed per property in less central code, after the round-2 follow-ups and the last repairs)')
+if glob.glob(os.path.join(V, 'seeded', 'r4-C*')):
+    table('r4-C*', hist.get('round4_first_run_missed', {}), set(hist.get('round4_first_run_detected_without_input', [])),
+          'Round 4 (20 properties whose tie rests most on hand models and search; fourth-choice code sites)')
